@@ -8,8 +8,8 @@ BASE = json.load(open('/root/.vp/BASELINE.json')) if os.path.exists('/root/.vp/B
 
 CLAIMED = {
     'C01': dict(cat='proof', technique='contract-based deductive verification: VCs generated from the AST of the real encoders (asm.py) against RISC-V manual decode contracts, discharged by z3 (INT + BV back ends)',
-                text='Per-mnemonic contracts on the real format encoders and partial bindings: returns <=> operands legal (unbounded integers), result decodes under the manual to the same mnemonic and operands, injectivity lemma; lookup_register body against its contract. All operand tuples, no enumeration.',
-                note='Trusted: CPython semantics of the modelled subset (cross-checked against CPython on guard corners every run), c_uint32 wrap, spec transcription (spec/rv32.py), z3. Text front end (lexer/parser) is covered by a bounded differential stand-in only.',
+                text='Per-mnemonic contracts on the real format encoders and partial bindings: returns <=> operands legal (unbounded integers), result decodes under the manual to the same mnemonic and operands, injectivity lemma; lookup_register body against its contract; parse_item hands the encoder the operand tokens in documented order (symbolic tokens; a name as branch target is %offset, a number an offset, nothing else is wrapped); resolve_immediates bakes exactly the expression value, resolve_register_aliases exactly the constant. All operand tuples, no enumeration.',
+                note='Trusted: CPython semantics of the modelled subset (cross-checked against CPython on guard corners every run), c_uint32 wrap, spec transcription (spec/rv32.py), z3. The lexer (regular expressions) is covered by a bounded differential stand-in only.',
                 ref='DESIGN 4 C01'),
     'C02': dict(cat='proof', technique='contract-based deductive verification: forward decode VCs per c.* mnemonic plus reverse VC over all 16-bit halfwords per RVC form, z3',
                 text='Forward: every accepted tuple yields a legal non-hint non-reserved halfword that decodes to it; reverse: every legal halfword of each of the 27 forms is returned by the real encoder on its canonical operands (forall h as a 16-bit vector).',
@@ -27,10 +27,10 @@ def _p(cat, technique, text, note, ref):
 T_DED = 'contract-based deductive verification: VCs generated from the AST of the real functions (re-read every run) against sidecar contracts, discharged by z3'
 CLAIMED.update({
     'C03': _p('proof', T_DED + '; Hoare loop-body step VCs of the five layout passes under the LabelsExact invariant',
-              'Loop-body step VCs (no unrolling) of resolve_labels, transform_compressible, transform_pseudo_instructions, resolve_aligns, resolve_immediates for an arbitrary item of every Item class: position tracks emitted sizes, every label stays exact, immediates are evaluated at the item own offset; Offset/Position/Hi/Lo eval contracts; encoder decode contracts of all control transfers; expansion effect lemmas of j/jal/call/tail/branches.',
+              'Loop-body step VCs (no unrolling) of resolve_labels, transform_compressible, transform_pseudo_instructions, resolve_aligns, resolve_immediates for an arbitrary item of every Item class: position tracks emitted sizes, every label stays exact, immediates are evaluated at the item own offset; Offset/Position/Hi/Lo eval contracts; encoder decode contracts of all control transfers; expansion effect lemmas of j/jal/call/tail/branches. assemble() itself is checked against the protocol contracts of the passes (typestate: every pass finds established what its contract assumes, passes run to completion, tables and item stream threaded unchanged).',
               'Trusted: CPython semantics of the modelled subset, label names distinct, align N >= 1, spec transcription, z3. Composition of the passes in assemble() and the lexer/parser are covered by the bounded stand-in (generated programs, targets recomputed from per-item chunks).', 'DESIGN 4 C03'),
     'C04': _p('proof', T_DED + '; per-rule VCs over the real criteria table and construction chain against the RVC expansion spec',
-              'For every 32-bit instruction class/mnemonic and every path of the real first-match criteria evaluation: the constructed c.* item expands (RVC tables) to the original instruction operand by operand, its operands are legal for the encoder, non-instruction items are untouched, the jalr half of a far call is never compressed.',
+              'For every 32-bit instruction class/mnemonic and every path of the real first-match criteria evaluation: the constructed c.* item expands (RVC tables) to the original instruction operand by operand, its operands are legal for the encoder, non-instruction items are untouched, the jalr half of a far call is never compressed; assemble() itself is checked against the protocol contracts of the passes (typestate: every pass finds established what its contract assumes, passes run to completion, tables and item stream threaded unchanged).',
               'Literal operands (decision-time value is final); label-dependent immediates rely on C03 step VCs plus the bounded both-modes comparison. Trusted: spec/rvc.py, spec/step.py, z3.', 'DESIGN 4 C04'),
     'C05': _p('proof', T_DED + '; effect lemmas of every pseudo-instruction expansion against reference RV32 step semantics on an arbitrary register file (BV) and over unbounded integers for li',
               'Every path of every expansion branch of the real transform_pseudo_instructions: constructed instructions executed by the reference step semantics equal the documented effect for all register files, registers choices incl. x0 and rd = rs, all li values.',
